@@ -269,7 +269,7 @@ func genInvalidText(t *rapid.T, k Kind, base int) string {
 	case KUpper:
 		return "x!bad"
 	case KTri:
-		return rapid.SampledFrom([]string{"true", "", "On", "maybe"}).Draw(t, "badtri")
+		return rapid.SampledFrom([]string{"true", "On", "maybe"}).Draw(t, "badtri")
 	case KBool:
 		return "maybe"
 	case KFloat32:
